@@ -88,7 +88,18 @@ static void op_ep2_param(int argc, char **argv) {
 	fprintf(OUT, " n="); raw_print(n->dp, n->used, 0);
 	fprintf(OUT, " h="); raw_print(h->dp, h->used, 0);
 	fprintf(OUT, " n1="); raw_print(pn->dp, pn->used, 0);
-	fprintf(OUT, " opta=%d optb=%d ctmap=%d\n", ep2_curve_opt_a(), ep2_curve_opt_b(), ep2_curve_is_ctmap());
+	fprintf(OUT, " opta=%d optb=%d ctmap=%d", ep2_curve_opt_a(), ep2_curve_opt_b(), ep2_curve_is_ctmap());
+	/* window width of the variable-base routines, comb depth of the fixed-base routines, field size (recoding capacities), GLS dispatch */
+	fprintf(OUT, " width=%d depth=%d fpbits=%d endom=%d", RLC_WIDTH, RLC_DEPTH, RLC_FP_BITS, ep_curve_is_endom() ? 1 : 0);
+	/* data of the Frobenius recodings: the constants of ep2_frb (x -> conj(x)*frb0, y -> conj(y)*frb1), the family parameter and
+	 * whether bn_rec_frb takes its BN branch */
+	{
+		bn_t u; bn_null(u); bn_new(u); fp_prime_get_par(u);
+		fprintf(OUT, " frb0="); fp2_printx(core_get()->ep2_frb[0]);
+		fprintf(OUT, " frb1="); fp2_printx(core_get()->ep2_frb[1]);
+		fprintf(OUT, " u="); raw_print(u->dp, u->used, bn_sign(u) == RLC_NEG);
+		fprintf(OUT, " bnfam=%d\n", ep_curve_is_pairf() == EP_BN ? 1 : 0);
+	}
 }
 
 /* e2b <op> <alias> <P> <Q> */
@@ -345,7 +356,32 @@ static void op_f2rb(int argc, char **argv) {
 	fputc('\n', OUT);
 }
 
+/* e2frb <k> : the four sub-scalars bn_rec_frb produces for k mod r with the data the twist routines pass (family parameter, order, BN flag),
+ * signed, hex without leading zeros */
+static void op_e2frb(int argc, char **argv) {
+	if (argc < 2) { fprintf(OUT, "bad-args\n"); return; }
+	bn_t k, n, u, _k[4]; raw_t r; int caught = 0;
+	bn_null(k); bn_new(k); bn_null(n); bn_new(n); bn_null(u); bn_new(u);
+	for (int i = 0; i < 4; i++) { bn_null(_k[i]); bn_new(_k[i]); }
+	raw_parse(&r, argv[1]); raw_to_bn(k, &r);
+	RLC_TRY {
+		ep2_curve_get_ord(n); fp_prime_get_par(u);
+		bn_mod(_k[0], k, n);
+		bn_rec_frb(_k, 4, _k[0], u, n, ep_curve_is_pairf() == EP_BN);
+	} RLC_CATCH_ANY { caught = 1; }
+	if (take_err() || caught) { fprintf(OUT, "err\n"); return; }
+	for (int i = 0; i < 4; i++) {
+		char buf[RLC_BN_SIZE * (RLC_DIG / 4) + 2]; int p = 0;
+		buf[0] = '0'; buf[1] = 0;
+		for (int j = (int)_k[i]->used - 1; j >= 0; j--) p += sprintf(buf + p, "%0*llx", RLC_DIG / 4, (unsigned long long)_k[i]->dp[j]);
+		char *q = buf; while (*q == '0' && q[1]) q++;
+		fprintf(OUT, "%s%s%s", i ? "," : "", (bn_sign(_k[i]) == RLC_NEG && !bn_is_zero(_k[i])) ? "-" : "", q);
+	}
+	fputc('\n', OUT);
+}
+
 const op_t ops_ep2[] = {
+	{"e2frb", op_e2frb},
 	{"ep2_param", op_ep2_param}, {"e2b", op_e2b}, {"e2u", op_e2u}, {"e2m", op_e2m}, {"e2s", op_e2s},
 	{"e2l", op_e2l}, {"e2d", op_e2l}, {"e2la", op_e2l}, {"e2da", op_e2l}, {"e2pt", op_e2pt}, {"e2wb", op_e2wb}, {"e2rb", op_e2rb}, {"f2rt", op_f2rt}, {"f2rb", op_f2rb},
 	{NULL, NULL}
